@@ -763,6 +763,10 @@ func (p *Parser) parseForEach() ast.Expression {
 
 	// get the id
 	p.nextToken()
+	if !p.curTokenIs(token.IDENT) {
+		p.errors = append(p.errors, fmt.Sprintf("first argument to foreach must be ident, got %v", p.curToken))
+		return nil
+	}
 	expression.Ident = p.curToken.Literal
 
 	// If we find a "," we then get a second identifier too.
